@@ -235,7 +235,8 @@ type scenario struct {
 	prefix     int // the first prefix calls are issued one after the other, the rest together
 	depth      int
 	remoting   bool
-	startFails int // 0 no; 1 invalid advertise address (NewContext of the root fails); (2 remoting port already in use: Start still returns nil, the listen error is handled by the server actor later - not used)
+	cluster    bool // single-node cluster on loopback: Stop first leaves the cluster (Context.Leave)
+	startFails int  // 0 no; 1 invalid advertise address (NewContext of the root fails); (2 remoting port already in use: Start still returns nil, the listen error is handled by the server actor later - not used)
 	blocks     bool
 	gomax      int
 }
@@ -298,22 +299,28 @@ func (sc scenario) describe() string {
 		}
 		parts = append(parts, s)
 	}
-	return fmt.Sprintf("[%s] prefix=%d depth=%d remoting=%v startFails=%v blocks=%v GOMAXPROCS=%d", strings.Join(parts, ", "), sc.prefix, sc.depth, sc.remoting, sc.startFails, sc.blocks, sc.gomax)
+	return fmt.Sprintf("[%s] prefix=%d depth=%d remoting=%v cluster=%v startFails=%v blocks=%v GOMAXPROCS=%d", strings.Join(parts, ", "), sc.prefix, sc.depth, sc.remoting, sc.cluster, sc.startFails, sc.blocks, sc.gomax)
 }
 
 type H struct {
-	o       *lib.Out
-	raceHit int
-	abortB  bool
+	o              *lib.Out
+	raceHit        int
+	abortB         bool
+	abortA         bool // a call hung: every further scenario would wait for its hang limit again
+	unexpectedFail int
 }
 
 func (h *H) runScenario(sc scenario) {
+	if h.abortA {
+		h.o.Stats["rt-skipped-after-hang"]++
+		return
+	}
 	if sc.gomax > 0 {
 		defer runtime.GOMAXPROCS(runtime.GOMAXPROCS(sc.gomax))
 	}
 	base := allStacks()
 	parent, cancelParent := context.WithCancel(context.Background())
-	sysTimeout := 3 * time.Second
+	sysTimeout := 1500 * time.Millisecond
 	if sc.blocks {
 		sysTimeout = 150 * time.Millisecond
 	}
@@ -330,6 +337,9 @@ func (h *H) runScenario(sc scenario) {
 			busy = l
 			opts = append(opts, vivid.WithActorSystemRemoting(l.Addr().String())) // the port is taken: the server cannot listen
 		}
+	} else if sc.cluster {
+		opts = append(opts, vivid.WithActorSystemRemoting(freeAddr()),
+			vivid.WithActorSystemRemotingOptions(vivid.NewActorSystemRemotingOptions(), vivid.WithActorSystemRemotingClusterOption()))
 	} else if sc.remoting {
 		opts = append(opts, vivid.WithActorSystemRemoting(freeAddr()))
 	}
@@ -378,6 +388,7 @@ func (h *H) runScenario(sc scenario) {
 			case <-dones[k]:
 			case <-time.After(limitOf(sc.calls[i])):
 				hung = true
+				h.abortA = true
 				stacks := allStacks()
 				var blocked []string
 				for _, blk := range stacks {
@@ -507,8 +518,25 @@ func (h *H) runScenario(sc scenario) {
 			if c.hasTmo {
 				t = c.tmo
 			}
+			if r.code == 4 && !c.short && !(sc.blocks && treeBuilt) {
+				h.o.Monitor("stop-failed-without-cause", in, fmt.Sprintf("%s: Stop #%d returned stop-failed after %v (timeout %v) although the actor tree (depth %d) does not block", sc.describe(), i, r.dur, t, sc.depth))
+				h.unexpectedFail++
+				if h.unexpectedFail >= 3 {
+					h.abortA = true // every further stop would wait for its whole timeout again
+				}
+			}
 			if r.dur > t+time.Second {
 				h.o.Monitor("stop-overran-timeout", in, fmt.Sprintf("%s: Stop #%d returned %s after %v, timeout %v", sc.describe(), i, codeName(r.code), r.dur, t))
+			}
+		}
+	}
+	if sc.prefix >= len(sc.calls) && sc.startFails == 0 {
+		for i, c := range sc.calls {
+			if c.kind == kStart {
+				if res[i].done && res[i].code != 0 {
+					h.o.Monitor("first-start-not-nil", in, fmt.Sprintf("%s: the first Start of the sequence returned %s (Stop before Start must leave the system startable)", sc.describe(), codeName(res[i].code)))
+				}
+				break
 			}
 		}
 	}
@@ -561,7 +589,19 @@ func (h *H) runScenario(sc scenario) {
 				problems = append(problems, "the system context is not cancelled")
 			}
 			if len(problems) > 0 {
-				h.o.Monitor("stop-nil-system-running", in, fmt.Sprintf("%s: %s (codes %v) but: %s", sc.describe(), why, names(obs), strings.Join(problems, "; ")))
+				name := "stop-nil-system-running"
+				guardOpen := true
+				select {
+				case <-actor.XVSysGuardClosed(sys):
+					guardOpen = false
+				default:
+				}
+				if stopNil && hasRoot && guardOpen {
+					// a stop returned nil although the root exists and was never terminated: the signature of a stop that read
+					// s.Context == nil and skipped Kill(root) and s.cancel()
+					name = "stop-skipped-kill-and-cancel"
+				}
+				h.o.Monitor(name, in, fmt.Sprintf("%s: %s (codes %v) but: %s", sc.describe(), why, names(obs), strings.Join(problems, "; ")))
 				h.raceHit++
 			} else {
 				for dl := time.Now().Add(time.Second); actor.XVSysSchedStarted(sys) && time.Now().Before(dl); {
@@ -651,7 +691,7 @@ func (h *H) tierA(r *lib.Rand, thorough bool) {
 			if k == kStop {
 				switch (variant + nstop) % 3 {
 				case 1:
-					out[i].hasTmo, out[i].tmo = true, 2*time.Second
+					out[i].hasTmo, out[i].tmo = true, time.Second
 				case 2:
 					out[i].hasTmo, out[i].tmo, out[i].short = true, 200*time.Microsecond, true
 				}
@@ -707,6 +747,12 @@ func (h *H) tierA(r *lib.Rand, thorough bool) {
 		h.runScenario(scenario{calls: mk(o, i), prefix: len(o), depth: i % 3, remoting: true})
 		h.runScenario(scenario{calls: mk(o, i), prefix: 1, depth: i % 3, remoting: true})
 	}
+	// (3b) single-node cluster: stop() first leaves the cluster (a blocking wait without timeout in the code)
+	for i, o := range [][]int{{kStart, kStop}, {kStart, kCancel}, {kStart, kStop, kStop, kStart}, {kStart, kCancel, kStop}} {
+		h.runScenario(scenario{calls: mk(o, 0), prefix: len(o), depth: i % 2, cluster: true})
+		h.runScenario(scenario{calls: mk(o, 0), prefix: 1, depth: i % 2, cluster: true})
+		h.o.Stats["rt-cluster"] += 2
+	}
 	// (4) concurrent: everything at once, and Start first then everything else at once
 	conc := [][]int{
 		{kStart, kStop}, {kStart, kStart}, {kStart, kStop, kStop}, {kStart, kStart, kStop, kStop, kStop, kCancel},
@@ -730,7 +776,7 @@ func (h *H) tierA(r *lib.Rand, thorough bool) {
 		n = 40000
 	}
 	for i := 0; i < n && h.raceHit < 3; i++ {
-		h.runScenario(scenario{calls: []rcall{{kind: kStart}, {kind: kStop, hasTmo: true, tmo: 2 * time.Second}}, prefix: 0, gomax: []int{2, 4, 8, 16}[i%4]})
+		h.runScenario(scenario{calls: []rcall{{kind: kStart}, {kind: kStop, hasTmo: true, tmo: time.Second}}, prefix: 0, gomax: []int{2, 4, 8, 16}[i%4]})
 	}
 	h.o.Info["rt_race_attempts"] = n
 }
@@ -830,7 +876,7 @@ func (h *H) lockstep(calls []tcall, choose func([]int, int) int) []vsched.Choice
 		case <-time.After(5 * time.Second):
 			treeTimeout = true
 		}
-		treeDone = true
+		treeDone = !treeTimeout // never pretend the channel is closed: the select would block for real
 	})
 	known := s.NumThreads()
 	guardTid := -1
@@ -1003,7 +1049,11 @@ func (h *H) lockstep(calls []tcall, choose func([]int, int) int) []vsched.Choice
 		default:
 		}
 		if !closed || !actor.XVSysCtxDone(sys) {
-			h.o.Monitor("stop-nil-system-running", in, fmt.Sprintf("calls %v returned %v: a stop returned nil but guardClosedSignal closed=%v, context cancelled=%v, root context assigned=%v (the system keeps running, status=%d)",
+			name := "stop-nil-system-running"
+			if !killIssued && !closed && actor.XVSysHasCtx(sys) {
+				name = "stop-skipped-kill-and-cancel" // the stop read s.Context == nil although a root is (being) created
+			}
+			h.o.Monitor(name, in, fmt.Sprintf("calls %v returned %v: a stop returned nil but guardClosedSignal closed=%v, context cancelled=%v, root context assigned=%v (the system keeps running, status=%d)",
 				describeCalls(calls), names(results), closed, actor.XVSysCtxDone(sys), actor.XVSysHasCtx(sys), actor.XVSysStatus(sys)))
 		}
 	}
@@ -1118,17 +1168,15 @@ func main() {
 	h := &H{o: o}
 	r := lib.NewRand(f.Seed)
 	thorough := f.Tier == "thorough"
-	t0 := time.Now()
-	h.tierA(r.Fork(), thorough)
-	o.Info["rt_wall_s"] = time.Since(t0).Seconds()
+	ra, rb := r.Fork(), r.Fork()
+	// the controlled runs first: a schedule that deadlocks is found deterministically there; goroutines of an
+	// abandoned run are waited for (or, if stuck for good, stay blocked and never touch vsched again)
 	t1 := time.Now()
-	if quiesce(10 * time.Second) {
-		h.tierB(r.Fork(), thorough)
-	} else {
-		// goroutines of tier A are stuck inside Start/Stop (reported by its monitors): the controlled runs are skipped
-		o.Stats["ls-skipped-goroutines-stuck-in-system"]++
-	}
+	h.tierB(rb, thorough)
 	o.Info["ls_wall_s"] = time.Since(t1).Seconds()
+	t0 := time.Now()
+	h.tierA(ra, thorough)
+	o.Info["rt_wall_s"] = time.Since(t0).Seconds()
 	o.Close(f.Report)
 	if len(o.Monitors) > 0 {
 		os.Exit(3)
